@@ -34,7 +34,9 @@ def maybe_wrap(rng, case, share, est_steps=900, ok=None):
     if rng.random() >= share:
         return case
     n = 2 if rng.random() < 0.8 else 3
-    return {'twin': case, 'n': n, 'plan': gen_plan(rng, est_steps * n, n)}
+    # a fifth of the twin runs is pre-empted between bytecode instructions instead of between lines
+    gran = 'instr' if rng.random() < 0.2 else 'line'
+    return {'twin': case, 'n': n, 'gran': gran, 'plan': gen_plan(rng, est_steps * n * (9 if gran == 'instr' else 1), n)}
 
 
 def run(inner_run, case, *, shared_bodyreq=True, before=None, after=None, step_cap=6_000_000, cap_violation=None):
@@ -43,7 +45,10 @@ def run(inner_run, case, *, shared_bodyreq=True, before=None, after=None, step_c
     inner = case['twin']
     n = case.get('n', 2)
     results = [None] * n
-    s = Sched(n, case['plan'], prefixes=PREFIXES, max_steps=step_cap)
+    gran = case.get('gran', 'line')
+    if gran == 'instr':
+        step_cap *= 10
+    s = Sched(n, case['plan'], prefixes=PREFIXES, max_steps=step_cap, granularity=gran)
     inflight = set()
     overlap = [0]
 
@@ -109,6 +114,7 @@ def run(inner_run, case, *, shared_bodyreq=True, before=None, after=None, step_c
     res['fired']['twin:preempted_mid_request'] += overlap[0]
     res['probes']['twin_runs'] += 1
     res['probes']['twin_plan:' + case['plan']['mode']] += 1
+    res['probes']['twin_gran:' + gran] += 1
     res['steps'] += s.step
     res['states'] = {a + ' | ' + b for a, b in s.switch_locs}
     res['nontrivial'] = overlap[0] > 0
@@ -121,6 +127,10 @@ def run(inner_run, case, *, shared_bodyreq=True, before=None, after=None, step_c
 
 
 def shrink_candidates(case, inner_candidates):
+    if case.get('gran', 'line') != 'line':
+        c = dict(case)
+        c['gran'] = 'line'
+        yield c
     for p in simpler_plans(case['plan']):
         c = dict(case)
         c['plan'] = p
